@@ -27,7 +27,10 @@ func TestMain(m *testing.M) {
 
 // ForgeOp is one structure-aware mutation of a valid stream.
 type ForgeOp struct {
-	Kind  string `json:"kind"`            // hdr, blklen, prelen, mode, skip, bytes, bits, trunc, append, setbytes
+	Kind  string `json:"kind"`            // hdr, blklen, prelen, mode, skip, bytes, bits, trunc, append, setbytes, bwthdr
+	// bwthdr (payload of the block = output of the BWT block codec, i.e. entropy NONE and BWT last in the chain): the BWT
+	// header is rebuilt with primary indexes of Width bytes (0 = keep), the stored index of chunk Off is set to Val, and the
+	// block length prefix / pre-entropy length are adjusted to the new payload size
 	Field string `json:"field,omitempty"` // hdr: version, ck, entropy, transforms, blocksize, szmask, size, checksum
 	Block int    `json:"block,omitempty"`
 	Off   int    `json:"off,omitempty"`   // bytes: offset inside the region; bits/trunc: per mille; setbytes: absolute byte offset
@@ -113,6 +116,15 @@ func forge(stream []byte, cfg gen.Config, ops []ForgeOp) (out []byte, hdrTouched
 			if !op.KeepCk {
 				b.Put(h.OffChecksum, 24, uint64(kfmt.HeaderChecksum(h.Version, h.CkSize, h.Entropy, h.Transforms, h.BlockSize, h.SzMask, h.Size)))
 			}
+		case "bwthdr":
+			if len(st.Blocks) == 0 {
+				continue
+			}
+			if nb := forgeBWTHeader(b, st, ((op.Block%len(st.Blocks))+len(st.Blocks))%len(st.Blocks), op.Width, op.Off, op.Val); nb != nil {
+				b = nb
+				// offsets changed: re-parse for the following ops
+				st, err = parseStream(b.Bytes(), cfg)
+			}
 		case "blklen", "prelen", "mode", "skip", "bytes", "bits":
 			if len(st.Blocks) == 0 {
 				continue
@@ -179,6 +191,68 @@ func forge(stream []byte, cfg gen.Config, ops []ForgeOp) (out []byte, hdrTouched
 	return b.Bytes(), hdrTouched, lenRatio
 }
 
+// forgeBWTHeader rebuilds block bi whose payload is the raw output of the BWT block codec (format 6:
+// mode byte = log2(chunks)<<2 | (index bytes - 1), then one primary index per chunk, then the data).
+func forgeBWTHeader(b *kfmt.Bits, st *kfmt.Stream, bi, width, chunk int, val uint64) *kfmt.Bits {
+	k := st.Blocks[bi]
+	if k.Copy || (k.End-k.PayloadStart)%8 != 0 || k.End-k.PayloadStart < 16 {
+		return nil
+	}
+	n := (k.End - k.PayloadStart) / 8
+	pay := make([]byte, n)
+	for i := range pay {
+		v, _ := b.Read(k.PayloadStart+8*i, 8)
+		pay[i] = byte(v)
+	}
+	mode := pay[0]
+	chunks := 1 << ((mode >> 2) & 7)
+	psz := int(mode&3) + 1
+	if 1+chunks*psz > n {
+		return nil
+	}
+	idx := make([]uint64, chunks)
+	for i, p := 0, 1; i < chunks; i++ {
+		for j := 0; j < psz; j++ {
+			idx[i] = idx[i]<<8 | uint64(pay[p])
+			p++
+		}
+	}
+	nsz := psz
+	if width >= 1 && width <= 4 {
+		nsz = width
+	}
+	idx[((chunk%chunks)+chunks)%chunks] = val
+	np := []byte{mode&^3 | byte(nsz-1)}
+	for _, v := range idx {
+		for j := nsz - 1; j >= 0; j-- {
+			np = append(np, byte(v>>(8*uint(j))))
+		}
+	}
+	np = append(np, pay[1+chunks*psz:]...)
+	delta := len(np) - n
+	out := kfmt.FromBytes(nil)
+	out.AppendRange(b, 0, k.Start)
+	newBits := k.LenBits + uint64(8*delta)
+	lw := kfmt.LenWidthFor(newBits)
+	out.Append(uint64(lw-3), 5)
+	out.Append(newBits, lw)
+	out.AppendRange(b, k.LenPrefixEnd, k.PreLenStart)
+	out.Append(k.PreLen+uint64(delta), k.PreLenEnd-k.PreLenStart)
+	out.AppendRange(b, k.HashStart, k.HashEnd)
+	for _, c := range np {
+		out.Append(uint64(c), 8)
+	}
+	out.AppendRange(b, k.End, b.N)
+	return out
+}
+
+// c03Cache keeps the valid stream of the last large (data, configuration) pair: the directed families
+// forge the same multi-megabyte base many times.
+var c03Cache struct {
+	key    uint64
+	stream []byte
+}
+
 type c03Out struct {
 	msg        string
 	known      string
@@ -201,10 +275,20 @@ func c03Materialise(c C03Case) (stream []byte, hdrTouched bool, lenRatio float64
 		}
 		return c.Raw, true, 0, declared, 1
 	}
-	data := c.Data.Expand()
-	valid, err := Compress(data, c.Cfg, nil)
-	if err != nil {
-		return nil, false, 0, 0, 0
+	var valid []byte
+	key := vrt.HashOf([]any{c.Cfg, c.Data})
+	if c.Data.Len >= 1<<20 && c03Cache.key == key && c03Cache.stream != nil {
+		valid = c03Cache.stream
+	} else {
+		data := c.Data.Expand()
+		var err error
+		valid, err = Compress(data, c.Cfg, nil)
+		if err != nil {
+			return nil, false, 0, 0, 0
+		}
+		if c.Data.Len >= 1<<20 {
+			c03Cache.key, c03Cache.stream = key, valid
+		}
 	}
 	st, _ := parseStream(valid, c.Cfg)
 	if st != nil {
@@ -471,6 +555,56 @@ func TestC03(t *testing.T) {
 		c := drawC03(t, r.Pick(1<<20, 8<<20))
 		handle(c, c03Eval(r, sb, c, maxDeclared), "", t)
 	})
+	// Directed family: primary indexes of the BWT header, for the sequential inverse (block <= 4 MiB) and for the
+	// chunk-parallel inverse run by helper goroutines (block > 4 MiB). Every chunk x boundary values around the block
+	// length, the limits of each index width (3-byte fields are rebuilt as 4-byte fields for values that need it) and the
+	// sign bit; a panic in a helper goroutine cannot be recovered by the task, which is why this needs the sandbox.
+	if !r.Failed() {
+		type base struct {
+			ln   int
+			tr   string
+			jobs []uint
+		}
+		bases := []base{{300000, "BWT", []uint{1, 3}}, {4<<20 + 4097, "BWT", []uint{1, 4}}}
+		if r.Thorough() {
+			bases = append(bases, base{4<<20 + 1, "TEXT+BWT", []uint{2, 5, 8}}, base{9 << 20, "BWT", []uint{1, 7}}, base{255, "BWT", []uint{1}}, base{256, "BWT", []uint{2}})
+		}
+		idx := 0
+		for _, bs := range bases {
+			count := uint64(bs.ln)
+			vals := []uint64{0, 1, count / 2, count - 2, count - 1, count, count + 1, 1<<24 - 1, 1 << 24, 1<<31 - 1, 1 << 31, 1<<32 - 1}
+			chunks := []int{0, 1, 7}
+			if r.Thorough() {
+				chunks = []int{0, 1, 2, 3, 4, 5, 6, 7}
+			}
+			for _, ch := range chunks {
+				for _, v := range vals {
+					for _, jobs := range bs.jobs {
+						idx++
+						if !r.Mine(idx) || r.Failed() {
+							continue
+						}
+						w := 0
+						if v >= 1<<24 {
+							w = 4
+						}
+						c := C03Case{Cfg: gen.Config{Transform: bs.tr, Entropy: "NONE", BlockSize: 16 << 20, Jobs: 1, Checksum: []uint{0, 32}[idx%2], HintClass: "absent"},
+							Data: gen.Recipe{Kind: gen.KText, Len: bs.ln, Seed: 5}, Ops: []ForgeOp{{Kind: "bwthdr", Block: 0, Off: ch, Width: w, Val: v}}, Jobs: jobs}
+						if bs.ln > 4<<20 && idx%3 == 0 {
+							// with the size in the header a block task may own several jobs: more than one helper goroutine
+							c.Cfg.Hint, c.Cfg.HintClass = int64(bs.ln), "exact"
+						}
+						o := c03Eval(r, sb, c, maxDeclared)
+						r.Label("directed:bwt-primary-index")
+						if handle(c, o, "", t) {
+							return
+						}
+					}
+				}
+			}
+		}
+		r.SetExhaustive("BWT primary index family (chunks x boundary values x jobs)", true)
+	}
 	r.Rapid(t, "random-bytes", 1000, 60000, func(t *rapid.T) {
 		var c C03Case
 		n := rapid.IntRange(0, 600).Draw(t, "n")
